@@ -110,12 +110,20 @@ def run_case(case, res):
 
     if case["kind"] == "routes":
         for rows, K, N in case["shapes"]:
-            for batch in ((rows,), (1, rows), (2, 1, rows)) if rows <= 8 else ((rows,),):
+            for batch in ((rows,), (1, rows), (2, 1, rows), ("T", 2, rows)) if rows <= 8 else ((rows,),):
+                transposed = batch[0] == "T"  # a non-contiguous batch: (rows, 2, K) seen through transpose(0, 1)
+                batch = batch[1:] if transposed else batch
+                if transposed and not (case["act"] == "qint8" and case["w"] == "qint8"):
+                    # float contractions of differently laid out operands go through different kernels whose accumulation
+                    # orders differ in the last bit: only the exact integer contraction is compared across layouts
+                    continue
                 for per_axis in (True, False):
                     a, sa = _act(case["act"], (*batch, K), dt)
+                    if transposed:
+                        a = a.transpose(0, 1).contiguous().transpose(0, 1)
                     w, sw = _weight(case["w"], N, K, dt, per_axis)
                     bf16_int8pack = dt == torch.bfloat16 and a.dtype == torch.bfloat16 and w.dtype == torch.int8 and K % 4 == 0
-                    cfg = f"a={case['act']}{tuple(a.shape)} w={case['w']}({N},{K}) per_axis={per_axis}"
+                    cfg = f"a={case['act']}{tuple(a.shape)}{' non-contiguous' if transposed else ''} w={case['w']}({N},{K}) per_axis={per_axis}"
                     with Session(res) as m:
                         A, W = m.symbolic(a, "a"), m.symbolic(w, "w")
                         SW = m.symbolic(sw, "sw")
@@ -123,20 +131,32 @@ def run_case(case, res):
                         if sa is not None:
                             SA = m.symbolic(sa, "sa")
                             scales = sa * sw
-                        outs = {}
-                        outs["default"] = lib.qbytes_mm(a, w, scales)
+                        outs, raised = {}, {}
+
+                        def route(name_, fn_):
+                            try:
+                                outs[name_] = fn_()
+                            except (api.Unsupported, api.ModelMismatch):
+                                raise
+                            except Exception as e_:  # noqa  (the float reference below is valid: a route must not raise)
+                                raised[name_] = f"{type(e_).__name__}: {str(e_)[:120]}"
+
+                        route("default", lambda: lib.qbytes_mm(a, w, scales))
                         if a.dtype == torch.int8 and w.dtype == torch.int8:
-                            outs["int_mm"] = lib.qbytes_int_mm(a, w, scales)
+                            route("int_mm", lambda: lib.qbytes_int_mm(a, w, scales))
                         op = torch.ops.quanto.qbytes_mm.default
                         DK = torch._C.DispatchKey
+
+                        def under_mode(fn_):
+                            with m:
+                                return fn_()
+
                         if not bf16_int8pack:
                             # the selector functions are plain Python over tensors: each is driven through its dispatch key on CPU tensors
-                            with m:
-                                outs["cpu-selector"] = op._op_dk(DK.CPU, a, w, scales)
-                            outs["routed-op"] = torch.ops.quanto.qbytes_mm(a, w, scales)
+                            route("cpu-selector", lambda: under_mode(lambda: op._op_dk(DK.CPU, a, w, scales)))
+                            route("routed-op", lambda: torch.ops.quanto.qbytes_mm(a, w, scales))
                         if a.ndim in (2, 3):
-                            with m:
-                                outs["cuda-selector"] = op._op_dk(DK.CUDA, a, w, scales)
+                            route("cuda-selector", lambda: under_mode(lambda: op._op_dk(DK.CUDA, a, w, scales)))
                         T = {k: m.read(v) for k, v in outs.items()}
                         # independent reference: sum_k a_k w_k in float32 (exact for integer operands), times the scale of
                         # output feature j, cast to the scale dtype
@@ -145,7 +165,10 @@ def run_case(case, res):
                         R = m.read(ref)
                     meta = all(tuple(v.shape) == (*batch, N) and v.dtype == scales.dtype for v in outs.values())
                     res.side_ok("route-output-shape-dtype", meta, cfg)
-                    bad = [k for k, v in T.items() if not same(v, R)]
+                    bad = [k for k, v in T.items() if not same(v, R)] + sorted(raised)
+                    if raised:
+                        res.side_ok("route-does-not-raise", False, f"{cfg}: {raised}")
+                        res.side[-1]["replayed"] = True
                     res.query("all-routes-equal-reference", "ALG", "unsat" if not bad and meta else "sat", 0.0, sub=cfg + f" routes={sorted(T)}", nvars=a.numel() + w.numel() + sw.numel())
                     if bad or not meta:
                         res.candidate("routes", "ALG", dict(kind="routes", dtype=case["dtype"], a=api.enc_tensor(a.float() if a.dtype.is_floating_point and a.element_size() == 1 else a), a_dtype=str(a.dtype), w=api.enc_tensor(w.float() if w.dtype.is_floating_point else w), w_dtype=str(w.dtype), sw=api.enc_tensor(sw), sa=api.enc_tensor(sa) if sa is not None else None, routes=bad), note=f"routes {bad} deviate")
@@ -470,14 +493,19 @@ def replay(rec):
         K = a.shape[-1]
         ref = (a.double().reshape(-1, K) @ w.double().t()) * scales.double().reshape(1, -1)
         mag = (a.double().abs().reshape(-1, K) @ w.double().abs().t()) * scales.double().reshape(1, -1)
-        outs = {"routed-op": torch.ops.quanto.qbytes_mm(a, w, scales), "default": lib.qbytes_mm(a, w, scales)}
+        outs, probs = {}, []
+        routes = {"routed-op": lambda: torch.ops.quanto.qbytes_mm(a, w, scales), "default": lambda: lib.qbytes_mm(a, w, scales)}
         if a.dtype == torch.int8 and w.dtype == torch.int8:
-            outs["int_mm"] = lib.qbytes_int_mm(a, w, scales)
+            routes["int_mm"] = lambda: lib.qbytes_int_mm(a, w, scales)
         if a.ndim in (2, 3):
-            outs["cuda-selector"] = torch.ops.quanto.qbytes_mm.default._op_dk(torch._C.DispatchKey.CUDA, a, w, scales)
+            routes["cuda-selector"] = lambda: torch.ops.quanto.qbytes_mm.default._op_dk(torch._C.DispatchKey.CUDA, a, w, scales)
+        for k_, fn_ in routes.items():
+            try:
+                outs[k_] = fn_()
+            except Exception as e_:  # noqa
+                probs.append(f"route {k_} raises {type(e_).__name__}: {str(e_)[:160]} (activations {tuple(a.shape)} strides {a.stride()})")
         f = wq.fmt(dt)
         u = 2.0 ** -f["p"]
-        probs = []
         both_f8 = a.dtype.is_floating_point and a.element_size() == 1 and w.dtype.is_floating_point and w.element_size() == 1
         for k, o in outs.items():
             o = o.double().reshape(ref.shape)
